@@ -815,10 +815,16 @@ mod rel_family {
 
     pub fn run(case: &str) -> String {
         let Some((init, codes)) = parse(case) else { return "bad-case".into() };
+        // comment texts (XCU 2.3 rule 10: a comment runs to the newline — a backslash in it, even the last character
+        // before the newline, is not a line continuation): empty, ending in one or two backslashes, ordinary
+        const COMMENTS: [&str; 9] = ["#", "#\\", "# x\\", "#\\\\", "# a comment", "##", "#\\ ", "# \\x", "#!\\"];
         let mut src = String::new();
         for (i, c) in codes.iter().enumerate() {
-            let line = match c {
-                'c' => if i % 2 == 0 { "# a comment".to_string() } else { "   \t # another one".to_string() },
+            // the surface of a line is a function of the case text alone
+            let h = i * 31 + (init as usize) * 7 + codes.len() * 13 + (*c as usize);
+            let comment = COMMENTS[h % COMMENTS.len()];
+            let mut line = match c {
+                'c' => format!("{}{comment}", ["", "   \t ", " "][(h / 9) % 3]),
                 'b' => if i % 2 == 0 { String::new() } else { "  \t ".to_string() },
                 'p' => "probe 1".to_string(),
                 'e' => "eval '# only a comment'".to_string(),
@@ -829,6 +835,15 @@ mod rel_family {
                 d if d.is_ascii_digit() => format!("st {d}"),
                 _ => return "bad-case".into(),
             };
+            if !matches!(c, 'c' | 'b') {
+                // a comment after the command: after a blank, or directly after the `;` operator
+                match (h / 9) % 4 {
+                    0 => line = format!("{line} {comment}"),
+                    1 => line = format!("{line};{comment}"),
+                    2 => line = format!("{line} ; {comment}"),
+                    _ => {}
+                }
+            }
             src.push_str(&line);
             src.push('\n');
         }
